@@ -248,10 +248,11 @@ func (r *Reader) decodeG3ScanLine2D() {
 // followed by the terminating code.
 func (r *Reader) decodeFullRun(isWhite bool) int {
 	total := 0
-	// A well-formed run has at most a few makeup codes followed by a
-	// terminating code. Limit iterations to catch malformed data that
-	// produces endless makeup codes from buffered bits.
-	for range 64 {
+	// A well-formed run has makeup codes followed by a terminating code.
+	// Every makeup code stands for at least 64 pixels, so a run that fits
+	// into the row needs at most Columns/64 of them; the limit catches
+	// malformed data that produces endless makeup codes from buffered bits.
+	for range r.Columns/64 + 2 {
 		runLength, st := r.decodeRun(isWhite)
 		total += runLength
 		if st == S_TermW || st == S_TermB || st == S_EOL || r.err != nil {
